@@ -12,14 +12,18 @@ case "$ID" in
   C09) T=c09_image ;;
   C10) T=c10_framebuffer ;;
   C15) T=c15_text ;;
+  C12|C13) exit 0 ;;            # enumerations only: nothing to fuzz
+  C[0-9][0-9]) T=generic ;;     # every other property: the generic target on its tape sub-checks
   *) exit 0 ;;
 esac
+export EGVERIF_FUZZ_PROP="$ID"
 ROOT="$(cd "$(dirname "$0")/.." && pwd)"
 export VERIF_ROOT="$ROOT"
 export CARGO_NET_OFFLINE=true
 unset CARGO_TARGET_DIR CARGO_BUILD_TARGET_DIR RUSTFLAGS CARGO_ENCODED_RUSTFLAGS
 SEED="${VERIF_SEED:-1}"
-RUNS="${VERIF_FUZZ_RUNS:-400000}"
+if [ "$T" = generic ]; then DEF_RUNS=60000; else DEF_RUNS=400000; fi
+RUNS="${VERIF_FUZZ_RUNS:-$DEF_RUNS}"
 JOBS="${VERIF_FUZZ_JOBS:-8}"
 cd "$ROOT/fuzz" || exit 2
 if ! cargo +nightly fuzz build --sanitizer none "$T" > "$ROOT/fuzz/build-$T.log" 2>&1; then
@@ -27,7 +31,7 @@ if ! cargo +nightly fuzz build --sanitizer none "$T" > "$ROOT/fuzz/build-$T.log"
   "$ROOT/harness/target/release/egverif" fuzz-evidence "$ID" "$T(not built)" 0 0 0 0
   exit 0
 fi
-CORP="$ROOT/fuzz/corpus-run/$T"; ART="$ROOT/fuzz/artifacts/$T"
+CORP="$ROOT/fuzz/corpus-run/$T-$ID"; ART="$ROOT/fuzz/artifacts/$T-$ID"
 rm -rf "$CORP" "$ART"; mkdir -p "$CORP" "$ART"
 # deterministic starting corpus: 48 pseudo-random inputs of full length (libFuzzer ramps length slowly from an empty corpus)
 python3 - "$CORP" "$SEED" <<'PY'
@@ -39,12 +43,13 @@ for i in range(48):
     open(f"{d}/seed{i:02d}", "wb").write(bytes(r.getrandbits(8) if r.random() < 0.7 else 0 for _ in range(n)))
 PY
 T0=$(date +%s)
-( cd "$ART" && "$ROOT/fuzz/fuzz/target/x86_64-unknown-linux-gnu/release/$T" "$CORP" -runs="$RUNS" -seed="$SEED" -max_len=1100 -len_control=0 -artifact_prefix="$ART/" -jobs="$JOBS" -workers="$JOBS" -print_final_stats=1 > "$ART/driver.log" 2>&1 )
+( cd "$ART" && "$ROOT/fuzz/fuzz/target/x86_64-unknown-linux-gnu/release/$T" "$CORP" -runs="$RUNS" -seed="$SEED" -max_len=1100 -len_control=0 -artifact_prefix="$ART/" -jobs="$JOBS" -workers="$JOBS" -max_total_time="${VERIF_FUZZ_MAX_S:-900}" -print_final_stats=1 > "$ART/driver.log" 2>&1 )
 T1=$(date +%s)
 CRASHES=$(ls "$ART" | grep -c "^crash-\|^oom-\|^timeout-")
 NCORP=$(ls "$CORP" | wc -l)
-TOTAL=$((RUNS * JOBS))
-echo "[${ID} thorough libfuzzer] target $T: $JOBS jobs x $RUNS runs, corpus $NCORP files, $CRASHES crash file(s), $((T1 - T0))s"
+DONE=$(grep -h "stat::number_of_executed_units" "$ART"/fuzz-*.log 2>/dev/null | awk '{s+=$2} END {print s+0}')
+TOTAL=$DONE
+echo "[${ID} thorough libfuzzer] target $T: $JOBS jobs x up to $RUNS runs (cap ${VERIF_FUZZ_MAX_S:-900}s each), $DONE executed, corpus $NCORP files, $CRASHES crash file(s), $((T1 - T0))s"
 RC=0
 for f in "$ART"/crash-*; do
   [ -e "$f" ] || continue
